@@ -122,6 +122,7 @@ func loadProg(repo string) *Prog {
 		}
 	}
 	p.resolveRoles()
+	theProg = p
 	p.resolveFields()
 	p.Opaque = p.computeOpaque()
 	p.inlineHelpers()
@@ -244,6 +245,7 @@ func (p *Prog) Callees(site ssa.CallInstruction) []*ssa.Function {
 			}
 		}
 	}
+	sort.SliceStable(out, func(i, j int) bool { return out[i].String() < out[j].String() })
 	return out
 }
 
@@ -263,7 +265,31 @@ func (p *Prog) Callers(fn *ssa.Function) []ssa.CallInstruction {
 			}
 		}
 	}
-	sort.Slice(out, func(i, j int) bool { return out[i].Pos() < out[j].Pos() })
+	// by file name and offset, not by token.Pos: the files of a package are parsed concurrently, so the
+	// bases the file set hands out — and with them the order of positions in different files — change from run to run
+	type k struct {
+		file string
+		off  int
+		fn   string
+	}
+	key := func(s ssa.CallInstruction) k {
+		ps := p.Fset.Position(s.Pos())
+		name := ""
+		if s.Parent() != nil {
+			name = s.Parent().String()
+		}
+		return k{ps.Filename, ps.Offset, name}
+	}
+	sort.SliceStable(out, func(i, j int) bool {
+		a, b := key(out[i]), key(out[j])
+		if a.file != b.file {
+			return a.file < b.file
+		}
+		if a.off != b.off {
+			return a.off < b.off
+		}
+		return a.fn < b.fn
+	})
 	return out
 }
 
